@@ -416,6 +416,47 @@ def main():
                 out["nested"]["bad"].append({"program": desc, "problems": probs, "ok": False})
         except Exception as ex:
             out["nested"]["bad"].append({"program": desc, "problems": ["raised %r" % (ex,)], "ok": False})
+    # ---- (E) one index OBJECT (a list of positions, a list mask, an index array) used by several differentiations and
+    #      refilled in place between them: each gradient goes to the positions the object holds in THAT evaluation ----
+    for hi in range(max(4, cfg["n"] // 40)):
+        n = rng.randint(4, 7)
+        wts = onp.array([float(3 ** k_) for k_ in range(3)])
+        kind = ("list", "array", "mask", "tuple-of-lists")[hi % 4]
+        steps = [[rng.randrange(n) for _ in range(3)] for _ in range(3)]
+        if kind == "list":
+            obj = list(steps[0])
+        elif kind == "array":
+            obj = onp.array(steps[0])
+        elif kind == "mask":
+            steps = [sorted(rng.sample(range(n), 3)) for _ in range(3)]
+            obj = [i_ in steps[0] for i_ in range(n)]
+        else:
+            obj = list(steps[0])
+        xh = onp.arange(float(n)) + 1.0
+        fh = (lambda x: anp.sum(wts * x[(obj,)])) if kind == "tuple-of-lists" else (lambda x: anp.sum(wts * x[obj]))
+        desc = "%s index object refilled in place, n=%d, steps=%s" % (kind, n, steps)
+        out["nested"]["n"] += 1
+        dist("history:index-object-reused")
+        try:
+            probs = []
+            for st_i, st in enumerate(steps):
+                if kind == "mask":
+                    obj[:] = [i_ in st for i_ in range(n)]
+                elif kind == "array":
+                    obj[...] = st
+                else:
+                    obj[:] = st
+                want = onp.zeros(n)
+                for w_, p_ in zip(wts, st):
+                    want[p_] += w_
+                got = onp.asarray(grad(fh)(xh))
+                gotf = onp.array([float(_mj(fh)(xh)(e)[1]) for e in onp.eye(n)])
+                if not (onp.all(got == want) and onp.all(gotf == want)):
+                    probs.append("evaluation %d with positions %s: gradient %s / forward %s, expected %s" % (st_i + 1, st, got.tolist(), gotf.tolist(), want.tolist()))
+            if probs:
+                out["nested"]["bad"].append({"program": desc, "problems": probs, "ok": False})
+        except Exception as ex:
+            out["nested"]["bad"].append({"program": desc, "problems": ["raised %r" % (ex,)], "ok": False})
     print(json.dumps(out))
 
 
